@@ -93,24 +93,12 @@ pub struct SrvCase {
 pub fn run_case(c: &SrvCase, out: &mut impl Write) {
     let sh = new_shared(c.stream.clone(), c.canfd, if c.creds { Some(UID) } else { None });
     let r = run_build(&sh, Role::Server(c.mech), &c.releases, false);
-    let (written, reads): (Vec<u8>, Vec<J>) = {
-        let s = sh.lock().unwrap();
-        (
-            s.written.clone(),
-            s.log.iter().filter(|e| e["ev"] == "Recvmsg").map(|e| json!([e["buflen"], e["n"]])).collect(),
-        )
-    };
-    let mut chunks = vec![];
-    let mut p = 0;
-    for r in &c.releases {
-        chunks.push(jbytes(&c.stream[p..*r]));
-        p = *r;
-    }
+    let written: Vec<u8> = sh.lock().unwrap().written.clone();
     let o = json!({"ev": "Srv", "id": c.id, "var": c.var,
         "cfg": {"mech": if c.mech == AuthMechanism::External { "EXT" } else { "ANON" }, "creds": c.creds, "canfd": c.canfd,
                 "uid": jbytes(UID.to_string().as_bytes())},
-        "chunks": chunks, "written": jbytes(&written), "outcome": r.outcome,
-        "detail": r.detail.chars().take(100).collect::<String>(), "reads": reads, "abs": c.abs});
+        "stream": jbytes(&c.stream), "rel": c.releases, "written": jbytes(&written), "outcome": r.outcome,
+        "detail": r.detail.chars().take(100).collect::<String>(), "abs": c.abs});
     writeln!(out, "{}", o).unwrap();
 }
 
@@ -179,7 +167,7 @@ pub fn cmd_enum(args: &[String]) {
             run_case(&mk("cut", rel), &mut out);
         } else {
             run_case(&mk("whole", vec![total]), &mut out);
-            if total > 1 {
+            if total > 1 && (c["lines"].as_array().unwrap().len() <= 2 || !c["nul"].as_bool().unwrap_or(true)) {
                 run_case(&mk("bytes", (1..=total).collect()), &mut out);
             }
         }
